@@ -275,7 +275,7 @@ impl<'u, 'de> serde::Deserializer<'de> for &'u mut URLEncodedDeserializer<'de> {
             assert!(self.side == ParsingSide::Value);
         }
 
-        match self.next_section()? {
+        match &*percent_decode(self.next_section()?) {
             b"true"  => visitor.visit_bool(true),
             b"false" => visitor.visit_bool(false),
             other   => Err(serde::de::Error::custom(format!(
@@ -292,7 +292,7 @@ impl<'u, 'de> serde::Deserializer<'de> for &'u mut URLEncodedDeserializer<'de> {
         }
 
         let section = self.next_section()?;
-        let section = std::str::from_utf8(section)
+        let section = percent_decode_utf8(section)
             .map_err(|_| serde::de::Error::custom(
                 format!("Expected a number, but got `{}`", section.escape_ascii())
             ))?;
@@ -309,7 +309,7 @@ impl<'u, 'de> serde::Deserializer<'de> for &'u mut URLEncodedDeserializer<'de> {
         }
 
         let section = self.next_section()?;
-        let section = std::str::from_utf8(section)
+        let section = percent_decode_utf8(section)
             .map_err(|_| serde::de::Error::custom(
                 format!("Expected a number, but got `{}`", section.escape_ascii())
             ))?;
@@ -327,7 +327,7 @@ impl<'u, 'de> serde::Deserializer<'de> for &'u mut URLEncodedDeserializer<'de> {
         }
 
         let section = self.next_section()?;
-        let section = std::str::from_utf8(section)
+        let section = percent_decode_utf8(section)
             .map_err(|_| serde::de::Error::custom(
                 format!("Expected an integer, but got `{}`", section.escape_ascii())
             ))?;
@@ -344,7 +344,7 @@ impl<'u, 'de> serde::Deserializer<'de> for &'u mut URLEncodedDeserializer<'de> {
         }
 
         let section = self.next_section()?;
-        let section = std::str::from_utf8(section)
+        let section = percent_decode_utf8(section)
             .map_err(|_| serde::de::Error::custom(
                 format!("Expected an integer, but got `{}`", section.escape_ascii())
             ))?;
@@ -361,7 +361,7 @@ impl<'u, 'de> serde::Deserializer<'de> for &'u mut URLEncodedDeserializer<'de> {
         }
 
         let section = self.next_section()?;
-        let section = std::str::from_utf8(section)
+        let section = percent_decode_utf8(section)
             .map_err(|_| serde::de::Error::custom(
                 format!("Expected an integer, but got `{}`", section.escape_ascii())
             ))?;
@@ -378,7 +378,7 @@ impl<'u, 'de> serde::Deserializer<'de> for &'u mut URLEncodedDeserializer<'de> {
         }
 
         let section = self.next_section()?;
-        let section = std::str::from_utf8(section)
+        let section = percent_decode_utf8(section)
             .map_err(|_| serde::de::Error::custom(
                 format!("Expected an integer, but got `{}`", section.escape_ascii())
             ))?;
@@ -396,7 +396,7 @@ impl<'u, 'de> serde::Deserializer<'de> for &'u mut URLEncodedDeserializer<'de> {
         }
 
         let section = self.next_section()?;
-        let section = std::str::from_utf8(section)
+        let section = percent_decode_utf8(section)
             .map_err(|_| serde::de::Error::custom(
                 format!("Expected an integer, but got `{}`", section.escape_ascii())
             ))?;
@@ -413,7 +413,7 @@ impl<'u, 'de> serde::Deserializer<'de> for &'u mut URLEncodedDeserializer<'de> {
         }
 
         let section = self.next_section()?;
-        let section = std::str::from_utf8(section)
+        let section = percent_decode_utf8(section)
             .map_err(|_| serde::de::Error::custom(
                 format!("Expected an integer, but got `{}`", section.escape_ascii())
             ))?;
@@ -430,7 +430,7 @@ impl<'u, 'de> serde::Deserializer<'de> for &'u mut URLEncodedDeserializer<'de> {
         }
 
         let section = self.next_section()?;
-        let section = std::str::from_utf8(section)
+        let section = percent_decode_utf8(section)
             .map_err(|_| serde::de::Error::custom(
                 format!("Expected an integer, but got `{}`", section.escape_ascii())
             ))?;
@@ -447,7 +447,7 @@ impl<'u, 'de> serde::Deserializer<'de> for &'u mut URLEncodedDeserializer<'de> {
         }
 
         let section = self.next_section()?;
-        let section = std::str::from_utf8(section)
+        let section = percent_decode_utf8(section)
             .map_err(|_| serde::de::Error::custom(
                 format!("Expected an integer, but got `{}`", section.escape_ascii())
             ))?;
